@@ -62,6 +62,7 @@ func workerFlags(fl *flag.FlagSet) {
 		must(os.MkdirAll(wenv.dir, 0o755))
 		must(os.Chdir(wenv.dir))
 	}
+	initCwd()
 	debug.SetMaxStack(64 << 20) // a runaway recursion dies quickly instead of eating 1 GB first
 }
 
